@@ -34,16 +34,18 @@ func (i Instance) Validate() error {
 
 type Meta map[string]string
 
-// MarshalYAML quotes a text that begins with a line break:
-// yaml.v3 drops that line break when it picks the block style on its own.
+// MarshalYAML quotes the texts that yaml.v3 does not print readably on its own:
+// for a text of several lines it picks the block style, which drops a leading line break or
+// line/paragraph separator and cannot be read back when the text begins with a tab,
+// and it prints the key "<<" plain, which is read back as a merge.
 func (m Meta) MarshalYAML() (any, error) {
-	var leadingBreak bool
-	for _, v := range m {
-		if strings.HasPrefix(v, "\n") {
-			leadingBreak = true
+	var quote bool
+	for k, v := range m {
+		if needsQuotes(k) || k == mergeKey || needsQuotes(v) {
+			quote = true
 		}
 	}
-	if !leadingBreak {
+	if !quote {
 		return map[string]string(m), nil
 	}
 
@@ -51,13 +53,30 @@ func (m Meta) MarshalYAML() (any, error) {
 	for _, k := range slices.Sorted(maps.Keys(m)) {
 		var key, value yaml.Node
 		key.SetString(k)
+		if needsQuotes(k) || k == mergeKey {
+			key.Style = yaml.DoubleQuotedStyle
+		}
 		value.SetString(m[k])
-		if strings.HasPrefix(m[k], "\n") {
+		if needsQuotes(m[k]) {
 			value.Style = yaml.DoubleQuotedStyle
 		}
 		node.Content = append(node.Content, &key, &value)
 	}
 	return node, nil
+}
+
+const mergeKey = "<<"
+
+func needsQuotes(s string) bool {
+	if !strings.Contains(s, "\n") {
+		return false
+	}
+	for _, p := range []string{"\n", "\t", "\u2028", "\u2029"} {
+		if strings.HasPrefix(s, p) {
+			return true
+		}
+	}
+	return false
 }
 
 func (m Meta) Get(key string) string {
